@@ -4,6 +4,4 @@ package errors
 
 // Library contracts used by the verification machinery in /verif (build tag "verif").
 
-//@ func fmt.Errorf(format, a) (err)
-//@   trusted library contract
-//@   ensures nonnil: err != nil
+// (fmt.Errorf: library contract declared in pkg/redis/client/cluster, which can name common.RedisError)
